@@ -129,7 +129,12 @@ def site_guard(body, call_bb, callee_is_self, call_term):
         kind, l, fields = g["place"]
         # the counter must travel with the recursion
         passed = False
-        for a in call_term["args"]:
+        carried = list(call_term["args"])
+        # a closure created in this block carries what it captures (e.g. `|n| is_unrollable(n, budget)` captures budget)
+        for st in body.blocks[call_bb]["s"]:
+            if st["k"] == "assign" and st["rv"]["k"] == "agg" and st["rv"].get("ak") == "closure":
+                carried.extend(st["rv"]["ops"])
+        for a in carried:
             if a["k"] in ("copy", "move"):
                 r0, _ = body.root_of(a["pl"]["l"])
                 if r0 == l or a["pl"]["l"] == l:
